@@ -385,8 +385,46 @@ def sqrt(x):
         rn, rd = math.isqrt(n), math.isqrt(d)
         if rn * rn == n and rd * rd == d:
             return const(Fraction(rn, rd))
-    # sqrt(c^2 * t) left alone; sqrt(t^2) is |t|, not simplified
+    # sqrt(a * b^e) = sqrt(a) * sqrt(b)^e  for factors b that are syntactically
+    # non-negative (sums of squares, sqrt nodes): then a*b^e >= 0 (logged above)
+    # and b != 0 (logged by the division) give a >= 0, so the split is exact.
+    coef = Fraction(1)
+    body = x
+    if x.op == "+" and x.a[0] == 0 and len(x.a[1]) == 1 and x.a[1][0][0] > 0:
+        coef, body = x.a[1][0]
+    if body.op == "*":
+        pos = [(b, e) for b, e in body.a if _nonneg_syntactic(b)]
+        rest = [(b, e) for b, e in body.a if not _nonneg_syntactic(b)]
+        if pos and (rest or coef != 1 or len(pos) > 1):
+            saved = ORACLE[0]
+            ORACLE[0] = None
+            try:
+                inner = _mul(rest) * coef if (rest or coef != 1) else ONE
+                r = sqrt(inner) if inner is not ONE else ONE
+                out = [(r, 1)]
+                for b, e in pos:
+                    if b.op == "sqrt":
+                        out.append((_mk("sqrt", b.uid, (b,)), e))
+                    else:
+                        out.append((_mk("sqrt", b.uid, (b,)), e))
+                return _mul(out)
+            finally:
+                ORACLE[0] = saved
     return _mk("sqrt", x.uid, (x,))
+
+
+def _nonneg_syntactic(t):
+    """Conservative: True only for terms that are >= 0 for all real values."""
+    op = t.op
+    if op == "c":
+        return t.a >= 0
+    if op == "sqrt":
+        return True
+    if op == "*":
+        return all(e % 2 == 0 or _nonneg_syntactic(b) for b, e in t.a)
+    if op == "+":
+        return t.a[0] >= 0 and all(c > 0 and _nonneg_syntactic(x) for c, x in t.a[1])
+    return False
 
 
 def sin(x):
@@ -970,3 +1008,147 @@ def as_symarray(x):
             raise KitError(f"cannot coerce {a[idx]!r}")
         out[idx] = c
     return out
+
+
+# ------------------------------------------------ canonical polynomial normal form
+class ExpandLimit(Exception):
+    pass
+
+
+class Expander:
+    """Canonical form of a division-free term as a polynomial over generators
+    (variables, atoms, sqrt/trig nodes, reciprocals) with the reductions
+    sqrt(x)^2 -> x and cos(x)^2 -> 1 - sin(x)^2.  A term whose normal form is
+    the empty polynomial is identically zero (wherever its sqrt arguments are
+    non-negative, which the logged safety obligations establish)."""
+
+    def __init__(self, limit=400000):
+        self.memo = {}
+        self.gens = {}
+        self.limit = limit
+        self.work = 0
+
+    def gen(self, t):
+        self.gens[t.uid] = t
+        return {((t.uid, 1),): Fraction(1)}
+
+    def expand(self, t):
+        r = self.memo.get(t)
+        if r is not None:
+            return r
+        op = t.op
+        if op == "c":
+            r = {(): t.a} if t.a != 0 else {}
+        elif op == "+":
+            r = {}
+            if t.a[0] != 0:
+                r[()] = t.a[0]
+            for c, x in t.a[1]:
+                for m, v in self.expand(x).items():
+                    nv = r.get(m, 0) + c * v
+                    if nv == 0:
+                        r.pop(m, None)
+                    else:
+                        r[m] = nv
+        elif op == "*":
+            r = {(): Fraction(1)}
+            for b, e in t.a:
+                if e > 0:
+                    pb = self.expand(b)
+                    for _ in range(e):
+                        r = self.pmul(r, pb)
+                else:
+                    inv = _mul([(b, -1)])
+                    pb = self.gen(inv)
+                    for _ in range(-e):
+                        r = self.pmul(r, pb)
+        else:
+            r = self.gen(t)
+        self.memo[t] = r
+        return r
+
+    def pmul(self, p, q):
+        if len(p) > len(q):
+            p, q = q, p
+        out = {}
+        self.work += len(p) * len(q)
+        if self.work > self.limit * 50:
+            raise ExpandLimit()
+        for m1, c1 in p.items():
+            for m2, c2 in q.items():
+                c = c1 * c2
+                mono, extra = self.mmul(m1, m2)
+                if extra is None:
+                    nv = out.get(mono, 0) + c
+                    if nv == 0:
+                        out.pop(mono, None)
+                    else:
+                        out[mono] = nv
+                else:
+                    part = self.pmul({mono: c}, extra)
+                    for m, v in part.items():
+                        nv = out.get(m, 0) + v
+                        if nv == 0:
+                            out.pop(m, None)
+                        else:
+                            out[m] = nv
+        if len(out) > self.limit:
+            raise ExpandLimit()
+        return out
+
+    def mmul(self, m1, m2):
+        if not m1:
+            d = dict(m2)
+        elif not m2:
+            d = dict(m1)
+        else:
+            d = dict(m1)
+            for g, e in m2:
+                d[g] = d.get(g, 0) + e
+        extra = None
+        for g, e in list(d.items()):
+            if e >= 2:
+                t = self.gens[g]
+                if t.op == "sqrt":
+                    f = self.expand(t.a[0])
+                elif t.op == "cos":
+                    s = sin(t.a[0])
+                    ps = self.expand(s)
+                    f = self.padd({(): Fraction(1)}, self.pmul(ps, ps), -1)
+                else:
+                    continue
+                k, rem = divmod(e, 2)
+                if rem:
+                    d[g] = 1
+                else:
+                    del d[g]
+                for _ in range(k):
+                    extra = f if extra is None else self.pmul(extra, f)
+        mono = tuple(sorted(d.items()))
+        return mono, extra
+
+    @staticmethod
+    def padd(p, q, cq=1):
+        out = dict(p)
+        for m, v in q.items():
+            nv = out.get(m, 0) + cq * v
+            if nv == 0:
+                out.pop(m, None)
+            else:
+                out[m] = nv
+        return out
+
+
+def is_zero_nf(t, limit=400000):
+    """True: normal form is 0. False: non-zero normal form. None: gave up."""
+    try:
+        num, _ = numden(t)
+        ex = Expander(limit)
+        saved = ORACLE[0]
+        ORACLE[0] = None
+        try:
+            return len(ex.expand(num)) == 0
+        finally:
+            ORACLE[0] = saved
+    except ExpandLimit:
+        return None
